@@ -134,6 +134,8 @@ def round_trips(repo, it, obj, cls_name, parent, desc, want_parent_export=False)
         elif str(back.fields.get("guid")) != str(obj.fields.get("guid")):
             out.append(("from_dict(to_dict) guid", f"{desc}: the re-built object has guid {back.fields.get('guid')}; the original has "
                         f"{obj.fields.get('guid')}", f_from.qual))
+        elif _eq_hash_problem(repo, it, obj, back):
+            out.append(("re-built object equals the original", f"{desc}: {_eq_hash_problem(repo, it, obj, back)}", f_from.qual))
         elif plain(back.fields.get("_location") and it.py_str(back.fields["_location"])) != plain(
                 obj.fields.get("_location") and it.py_str(obj.fields["_location"])):
             out.append(("from_dict keeps the parent", f"{desc}: the re-built object sits on another location "
@@ -156,6 +158,28 @@ def round_trips(repo, it, obj, cls_name, parent, desc, want_parent_export=False)
         except ValueError as ex:
             out.append(("model load", f"{desc}: {ex}", f_to.qual))
     return n, out
+
+
+def _eq_hash_problem(repo, it, obj, back):
+    """the library's own equality and hash on an object and its re-built twin: equal, both ways, with equal hashes; and not equal
+    to something of another kind"""
+    fe = it.method(obj, "__eq__")
+    fh = it.method(obj, "__hash__")
+    if fe is None:
+        return None
+    k1, v1 = run(it, fe, [back], {}, obj)
+    k2, v2 = run(it, fe, [obj], {}, back)
+    if k1 != "ok" or k2 != "ok" or not (v1 is True and v2 is True):
+        return f"original == re-built -> {k1}:{v1}, re-built == original -> {k2}:{v2}; an import of an export is an equal object"
+    k3, v3 = run(it, fe, ["not an interval"], {}, obj)
+    if k3 != "ok" or v3 is not False:
+        return f"comparison with a value of another kind -> {k3}:{v3}; expected False"
+    if fh is not None:
+        k4, h1 = run(it, fh, [], {}, obj)
+        k5, h2 = run(it, fh, [], {}, back)
+        if k4 != "ok" or k5 != "ok" or h1 != h2 or not isinstance(h1, int):
+            return f"hash(original) -> {k4}:{h1}, hash(re-built) -> {k5}:{h2}; equal objects have equal hashes"
+    return None
 
 
 def _quals(o):
